@@ -928,6 +928,11 @@ func (st *State) typeAssert(fr *Frame, in *ssa.TypeAssert) Value {
 
 func (st *State) convert(x Value, from, to types.Type) Value {
 	if mx, ok := x.(Mux); ok {
+		if _, toSlice := to.Underlying().(*types.Slice); toSlice {
+			// string -> []rune / []byte of alternatives of different length: every loop over the result
+			// would have a symbolic bound; fork over the alternatives instead
+			return st.convert(st.demux(mx), from, to)
+		}
 		return st.mapMux(mx, func(v Value) Value { return st.convert(v, from, to) })
 	}
 	b := st.b
